@@ -52,7 +52,26 @@ fn build_expr(r: &mut Rng, printers: usize, plain: bool) -> Expression {
                 break a;
             }
         };
-        let node = act(a);
+        // a third of the actions sit behind a condition on the record, so that the threads (whose records
+        // are named t<thread>r<k>) take different paths through the policy and use different printers
+        let node = match r.below(9) {
+            0 => and(t(Test::Name(format!("t{}*", r.below(2)))), act(a)),
+            1 => {
+                let other = loop {
+                    if let Some(b) = action_for(r.below(13), plain) {
+                        if !matches!(b, Action::Quit) {
+                            break b;
+                        }
+                    }
+                };
+                if matches!(other, Action::PrintNull | Action::FilePrint(_) | Action::FilePrintNull(_) | Action::FilePrintFormatted(_, _)) || matches!(&other, Action::PrintFormatted(f) if !matches!(f.last(), Some(FormatElement::Special(FormatSpecial::Newline)))) {
+                    have_framing = true;
+                }
+                or(and(t(Test::Name("t1*".into())), act(a)), act(other))
+            }
+            2 => or(not(act(a)), t(Test::True)),
+            _ => act(a),
+        };
         e = Some(match e {
             None => node,
             Some(p) => list(p, node),
